@@ -802,11 +802,13 @@ Proof.
 Qed.
 
 Example wf_all_histories_nonvacuous :
-  ∃ m', run_ops (fun _ => None) mfs_init
+  match run_ops (fun _ => None) mfs_init
           [OMkdirP [47; 97; 47; 98]%N; OWriteAll [47; 97; 47; 98; 47; 102]%N [1]%N; OSymlink [47; 97; 47; 108]%N [47; 97; 47; 98]%N;
-           OMkdirP [47; 99]%N; OMoveP [47; 97]%N [47; 99]%N; OMoveP [47; 99; 47; 97; 47; 98]%N [47; 100]%N] = Some m'
-        ∧ size (m_ents m') = 6.
-Proof. eexists. split; [vm_compute; reflexivity | vm_compute; reflexivity]. Qed.
+           OMkdirP [47; 99]%N; OMoveP [47; 97]%N [47; 99]%N; OMoveP [47; 99; 47; 97; 47; 98]%N [47; 100]%N] with
+  | Some m' => size (m_ents m') =? 6
+  | None => false
+  end = true.
+Proof. vm_compute. reflexivity. Qed.
 
 (* ---- C09: readable consequences of the exact description ---- *)
 Section MoveLaws.
